@@ -1,3 +1,4 @@
+import StepModel.SevLemmas
 import StepModel.Session
 /-! Helper lemmas about the session model (used by Props/C14.lean and Props/C16.lean). -/
 namespace StepModel.Session
